@@ -33,8 +33,8 @@ FLAGS = ["date", "time", "micro", "local"]
 FLAG_SETS = [sorted(c) for r in range(5) for c in itertools.combinations(FLAGS, r)]   # all 16
 
 
-def consts(max_loggers, xbool, xlay, xopt, xflagset, xflags, inherit):
-    plain = dict(MaxLoggers=max_loggers)
+def consts(max_loggers, xbool, xlay, xopt, xflagset, xflags, inherit, max_saved=1):
+    plain = dict(MaxLoggers=max_loggers, MaxSaved=max_saved)
     c = dict(Customs=set(CUSTOMS), BoolLists=BOOL_LISTS, LayLists=LAY_LISTS, OptLists=OPT_LISTS,
              FlagSets=[set(f) for f in FLAG_SETS], XBool=set(xbool), XLay=set(xlay), XOpt=set(xopt),
              XFlagSet=set(xflagset), XFlags=set(xflags), Inherit=set(inherit))
@@ -49,7 +49,7 @@ def mc_files(name, extends, c, plain, cfg_lines, assumes=()):
 
 
 INVS = "INVARIANTS TypeOK CellsOK StatementOK"
-PROPS = "PROPERTIES Isolation LayoutSticky"
+PROPS = "PROPERTIES Isolation LayoutSticky RestoreExact"
 
 
 def cell_key(c):
@@ -168,17 +168,32 @@ def label_to_event(label):
         return dict(op=name, l=0, a=0, f=a[0])
     if name == "SetFlags":
         return dict(op=name, l=0, a=a[0], f="")
+    if name == "ResetFlags":
+        return dict(op=name, l=0, a=0, f="")
+    if name == "SaveMod":
+        return dict(op=name, l=0, a=a[0], f="", b=a[1])
+    if name == "Restore":
+        return dict(op=name, l=0, a=a[0], f="")
     raise Undecided("unknown action label %r" % label)
 
 
 def random_behaviours(rng, count, depth, max_loggers):
     res = []
     for _ in range(count):
-        n, beh = 1, []
+        n, beh, saved = 1, [], 0
         for _ in range(depth):
             x = rng.random()
             l = rng.randint(1, n)
-            if x < 0.22:
+            y = rng.random()
+            if y < 0.05:
+                beh.append(dict(op="ResetFlags", l=0, a=0, f=""))
+            elif y < 0.13:
+                beh.append(dict(op="SaveMod", l=0, a=rng.randint(1, len(FLAG_SETS)), f="",
+                                b=rng.choice([0, 0] + list(range(1, len(FLAG_SETS) + 1)))))
+                saved += 1
+            elif y < 0.22 and saved:
+                beh.append(dict(op="Restore", l=0, a=rng.randint(1, saved), f=""))
+            elif x < 0.22:
                 beh.append(dict(op="SetUTC", l=l, a=rng.randint(1, len(BOOL_LISTS)), f=""))
             elif x < 0.44:
                 beh.append(dict(op="SetTF", l=l, a=rng.randint(1, len(LAY_LISTS)), f=""))
@@ -292,6 +307,10 @@ def describe_args(ev):
         return OPT_LISTS[ev["a"] - 1]
     if ev["op"] == "SetFlags":
         return FLAG_SETS[ev["a"] - 1]
+    if ev["op"] == "SaveMod":
+        return dict(add=FLAG_SETS[ev["a"] - 1], remove=FLAG_SETS[ev["b"] - 1] if ev.get("b") else None)
+    if ev["op"] == "Restore":
+        return "restore function #%d" % ev["a"]
     return ev["f"]
 
 
@@ -307,28 +326,41 @@ def run(ctx, replay):
         big = consts(2, [1, 2, 3, 4], [1, 2, 3, 4, 9, 10], [2, 5, 6, 7], [1, 16], FLAGS, [False, True])
     else:
         big = consts(3, range(1, len(BOOL_LISTS) + 1), range(1, len(LAY_LISTS) + 1), range(1, len(OPT_LISTS) + 1),
-                     [1, 8, 16], FLAGS, [False, True])
+                     [1, 8, 16], FLAGS, [False, True], max_saved=0)
+    # save/restore scopes crossed with two loggers (the big thorough machine has none: saved flag sets
+    # multiply its states beyond what finishes)
+    big2 = consts(2, [1, 2, 3, 4], [1, 2, 3, 4, 9, 10], [2, 5, 6, 7], [1, 16], FLAGS, [False, True],
+                  max_saved=1 if quick else 2)
     # vacuity: the situations the invariants speak about are reachable (witness runs, must be violated)
     wit = consts(2, [1, 3], [1, 4], [2], [], FLAGS, [False, True])
     witnesses = ("NeverUTCModeWithLocalFlag", "NeverCustomWithDateFlags", "NeverUnlisted", "NeverChildDiffers")
 
     # graph of a smaller configuration (children start unconfigured), dumped for replay
     if quick:
-        small = consts(2, [1, 3], [1, 4], [6], [], ["local", "date"], [False])
+        small = consts(2, [1, 3], [1, 4], [6], [], ["local", "date"], [False], max_saved=0)
+        scopes = consts(1, [3], [4], [], [2, 5], ["local", "date"], [False], max_saved=2)
     else:
-        small = consts(2, [1, 2, 3, 5], [1, 3, 4, 10], [2, 6, 7], [1], FLAGS, [False])
+        small = consts(2, [1, 2, 3, 5], [1, 3, 4, 10], [2, 6, 7], [1], FLAGS, [False], max_saved=0)
+        scopes = consts(1, [1, 3], [4], [], [2, 5, 9], FLAGS, [False], max_saved=2)
     dot = os.path.join(ctx.scratch, "ts-graph")
+    dot2 = os.path.join(ctx.scratch, "ts-graph-scopes")
 
-    def graph():
-        return ctx.model_check("MC16D", "MC16D.cfg",
-                               files=mc_files("MC16D", "Timestamp", small[0], small[1],
+    def graph(cfg=None, out=None, nm="MC16D"):
+        cfg, out = cfg or small, out or dot
+        return ctx.model_check(nm, nm + ".cfg",
+                               files=mc_files(nm, "Timestamp", cfg[0], cfg[1],
                                               ["INIT Init", "NEXT Next", "ALIAS DumpAlias", INVS, PROPS]),
-                               name="c16-graph", timeout=900, extra=["-dump", "dot,actionlabels", dot], workers=2)
+                               name="c16-graph-" + nm, timeout=900, extra=["-dump", "dot,actionlabels", out], workers=2)
 
     def machine():
         return ctx.model_check("MC16", "MC16.cfg", files=mc_files("MC16", "Timestamp", big[0], big[1],
                                                                   ["INIT Init", "NEXT Next", INVS, PROPS]),
                                name="c16-machine", timeout=1500, workers=10)
+
+    def machine2():
+        return ctx.model_check("MC16B", "MC16B.cfg", files=mc_files("MC16B", "Timestamp", big2[0], big2[1],
+                                                                    ["INIT Init", "NEXT Next", INVS, PROPS]),
+                               name="c16-machine-scopes", timeout=1500, workers=6)
 
     def witness(inv):
         return ctx.tlc("MC16W", "MC16W.cfg", files=mc_files("MC16W", "Timestamp", wit[0], wit[1],
@@ -338,11 +370,16 @@ def run(ctx, replay):
     with concurrent.futures.ThreadPoolExecutor(max_workers=7) as pool:
         fc = pool.submit(run_cells, ctx, cells, infos, 50 if quick else 5000)
         fm = pool.submit(machine)
+        fm2 = pool.submit(machine2) if not quick else None
         fg = pool.submit(graph)
+        fg2 = pool.submit(graph, scopes, dot2, "MC16S")
         fw = {inv: pool.submit(witness, inv) for inv in witnesses}
         fc.result()
         r = fm.result()
+        if fm2:
+            fm2.result()
         fg.result()
+        fg2.result()
         for inv in witnesses:
             w = fw[inv].result()
             if inv not in w.invariant_violated:
@@ -350,17 +387,22 @@ def run(ctx, replay):
     ctx.extra["machine_states"] = r.distinct
     ctx.extra["witnesses_reached"] = 4
     # ---- 4. graph -> scripts -> library -> TLC
-    nodes, edges, inits = parse_dot_edges(dot + ".dot")
-    evs = [label_to_event(lbl) for (_, lbl, _) in edges]
-    covers, unvisited = edge_cover(nodes, edges, inits, max_len=80)
-    if unvisited:
-        raise Undecided("edge cover incomplete: %d edges not reachable" % unvisited)
-    behaviours = [[evs[i] for i in beh] for beh in covers]
+    behaviours, covers, n_nodes, n_edges = [], [], 0, 0
+    for d in (dot, dot2):
+        nodes, edges, inits = parse_dot_edges(d + ".dot")
+        evs = [label_to_event(lbl) for (_, lbl, _) in edges]
+        cov, unvisited = edge_cover(nodes, edges, inits, max_len=80)
+        if unvisited:
+            raise Undecided("edge cover incomplete: %d edges not reachable" % unvisited)
+        behaviours += [[evs[i] for i in beh] for beh in cov]
+        covers += cov
+        n_nodes += len(nodes)
+        n_edges += len(edges)
     n_cover = len(behaviours)
     rng = random.Random(ctx.seed * 7919 + 16)
     behaviours += random_behaviours(rng, 40 if quick else 600, 30 if quick else 50, 6 if quick else 10)
     rows, bad, inh = run_behaviours(ctx, infos, behaviours, n_cover, probes=1 if quick else 2)
-    ctx.extra.update(graph_states=len(nodes), graph_edges=len(edges), cover_behaviours=n_cover,
+    ctx.extra.update(graph_states=n_nodes, graph_edges=n_edges, cover_behaviours=n_cover,
                      cover_events=sum(len(b) for b in covers), random_behaviours=len(behaviours) - n_cover,
                      trace_events=len(rows), steps_explained_only_by_inheriting_child=inh)
     if len(rows) > 2:
